@@ -112,7 +112,8 @@ def execute(case: dict) -> dict:
         else:
             dt = 'f64' if (o['x64'] and int(case['id'], 16) % 2 == 0) else 'f32'
             term = termcheck._retype(case['term'], dt) if dt != 'f32' else case['term']
-            op = terms.Builder().build(term)
+            # Toeplitz operators with the default method and FFT size (the integer fft_size is a pytree leaf)
+            op = terms.Builder(toeplitz_method='overlap_save').build(term)
             want = terms.mat_to_float(case['den'])
     except Exception as exc:
         o['build_exc'] = f'{type(exc).__name__}: {str(exc)[:200]}'
